@@ -5,7 +5,8 @@ From RV Require Import Base.F64 Base.FMod Gen.Colors Model.Color.
 Import ListNotations.
 Local Open Scope Z_scope.
 
-Inductive ckind : Type := KRgb | KHsl | KHwb | KNamed (name : string) | KHex.
+Inductive ckind : Type := KRgb | KHsl | KHwb | KNamed (name : string) | KHex
+  | KRgbaOf.     (* rgba(#rrggbb, alpha): Color::set_alpha + reset_source (used by C33) *)
 
 (* what the harness reports for one colour: representation, own channels, and the
    channels after conversion to each of the three models, all as f64 bit patterns *)
@@ -40,6 +41,7 @@ Definition model_color (c : case) : option color :=
   | KHwb, [h; w; b; a] => Some (sass_hwb (of_bits h) (of_bits w) (of_bits b) (of_bits a))
   | KNamed n, _ => option_map CRgba (from_name n)
   | KHex, [r; g; b] => Some (CRgba (rgba_from_bytes r g b))
+  | KRgbaOf, [r; g; b; a] => Some (CRgba (mkRgba (fc r) (fc g) (fc b) (fclamp (of_bits a) f_zero f_one) SName))
   | _, _ => None
   end.
 
@@ -58,8 +60,8 @@ Fixpoint same_all (ms : list f64) (zs : list Z) : bool :=
   | _, _ => false
   end.
 
-Definition corr (c : case) : Z :=
-  match model_color c, c_impl c with
+Definition corr_with (m : option color) (c : case) : Z :=
+  match m, c_impl c with
   | Some col, Some p =>
       let k := match col with CRgba _ => 0 | CHsla _ => 1 | CHwba _ => 2 end in
       let own := match col with CRgba x => rgba_list x | CHsla x => hsla_list x | CHwba x => hwba_list x end in
@@ -109,23 +111,33 @@ Definition known_K3 (c : case) : bool :=
                           || fgt (of_bits w) f100 || fgt (of_bits b) f100
   | _, _ => false
   end.
-(* K4: an rgb channel argument that is not an integer: red()/green()/blue() report it rounded *)
-Definition frac (z : Z) : bool := let x := of_bits z in negb (feq (fround x) x).
-Definition known_K4 (c : case) : bool :=
-  match c_kind c, c_in c with
-  | KRgb, [r; g; b; _] => frac r || frac g || frac b
-  | (KHsl | KHwb), _ => true        (* converted channels are fractional in general *)
-  | _, _ => false
+(* K4: a colour whose rgb channels are not all integers: red()/green()/blue() report them rounded,
+   so the colour rebuilt from them is another colour *)
+Definition frac (x : f64) : bool := negb (feq (fround x) x).
+Definition known_K4m (m : option color) : bool :=
+  match m with
+  | Some col => let x := to_rgba col in frac (r_red x) || frac (r_green x) || frac (r_blue x)
+  | None => false
   end.
-(* K5: colours kept in hsl / hwb form are compared field by field, exactly *)
-Definition known_K5 (c : case) : bool :=
-  match c_kind c with KHsl | KHwb => true | _ => false end.
+(* K5: a colour kept in hsl / hwb form (made by hsl() or hwb()) is compared field by field, exactly,
+   together with its `hsla_format` flag *)
+Definition known_K5m (m : option color) : bool :=
+  match m with Some (CHsla _) | Some (CHwba _) => true | _ => false end.
+(* K6 (F33): an rgb colour with red = green > blue: max_min_largest takes blue for the maximum *)
+Definition k6_rgba (c : rgba) : bool := feq (r_red c) (r_green c) && flt (r_blue c) (r_red c).
+Definition known_K6m (m : option color) : bool :=
+  match m with Some (CRgba x) => k6_rgba x | _ => false end.
+Definition corr (c : case) : Z := corr_with (model_color c) c.
+Definition known_K4 (c : case) : bool := known_K4m (model_color c).
+Definition known_K5 (c : case) : bool := known_K5m (model_color c).
+Definition known_K6 (c : case) : bool := known_K6m (model_color c).
 
 Definition b2z (b : bool) : Z := if b then 1 else 0.
 Definition opt_clause (c : case) (f : report -> bool) : Z :=
   match c_impl c with Some p => b2z (f p) | None => 0 end.
 
-(* [corr; rgb; hue; sl; wb; K1; K2; K3; K4; K5] (the equality answers are judged from c_eqs directly) *)
+(* [corr; rgb; hue; sl; wb; K1; K2; K3; K4; K5; K6] (the equality answers are judged from c_eqs directly) *)
 Definition run (c : case) : list Z :=
-  [ corr c; opt_clause c clause_rgb; opt_clause c clause_hue; opt_clause c clause_sl; opt_clause c clause_wb;
-    b2z (known_K1 c); b2z (known_K2 c); b2z (known_K3 c); b2z (known_K4 c); b2z (known_K5 c) ].
+  let m := model_color c in
+  [ corr_with m c; opt_clause c clause_rgb; opt_clause c clause_hue; opt_clause c clause_sl; opt_clause c clause_wb;
+    b2z (known_K1 c); b2z (known_K2 c); b2z (known_K3 c); b2z (known_K4m m); b2z (known_K5m m); b2z (known_K6m m) ].
